@@ -1591,6 +1591,8 @@ C19_LIMITS = [
     ({"max_size": 64}, "oversize"),
     ({"max_size": 0, "ack_max_packet_size": 48}, "oversize"),
     ({"max_size": 64, "ack_max_packet_size": 0}, "oversize_ok"),      # the handshake service LIFTS the configured limit
+    ({"max_size": 64, "ack_max_packet_size": 200}, "oversize_ok"),    # ... or raises it (also MQTT 3.1.1: HandshakeAck::max_packet_size)
+    ({"max_size": 200, "ack_max_packet_size": 48}, "oversize"),       # ... or lowers it
     ({"max_topic_alias": 2}, "alias_over"),
     ({"max_topic_alias": 2}, "alias_at"),
     ({"max_topic_alias": 8, "ack_topic_alias_max": 1}, "alias_over"),
@@ -1622,7 +1624,8 @@ def c19_decode_for(endpoint):
             return None, None
         if probe in ("alias_over", "alias_at") and (ver != 5):
             return None, None
-        if ver == 3 and any(k in lim for k in ("ack_max_qos", "ack_max_packet_size", "ack_keep_alive", "ack_receive_max", "ack_topic_alias_max")):
+        if ver == 3 and (any(k in lim for k in ("ack_max_qos", "ack_keep_alive", "ack_receive_max", "ack_topic_alias_max"))
+                         or lim.get("ack_max_packet_size", 1) == 0):
             return None, None
         cfg = dict(role=role, ver=ver, gate_pub=0, gate_proto=0, max_receive=16)
         cfg.update(lim)
